@@ -79,6 +79,8 @@ type DirectReport struct {
 	From    int    `json:"from"`
 	To      int    `json:"to"`
 	Text    string `json:"text"`
+	// ToEOF: the suggestion's range ends at the end of its file (Base+Size: the exclusive end of the last byte)
+	ToEOF bool `json:"to_eof,omitempty"`
 }
 
 type Step struct {
@@ -334,6 +336,37 @@ func short(a, b int) bool {
 	return a == a
 }
 `},
+	// the ends of files: none of these files ends with a newline and the last token of each belongs to a node that gets a
+	// suggestion (a comparison, a product inside a product, a call whose report is moved to its argument, a call chain,
+	// a call in the last statement position is impossible: a file ends with a declaration), so the exclusive end of the
+	// edit is the end-of-file position Base+Size -- a legal position that no byte of the file has. The first and the
+	// middle files are followed by another file of the FileSet (the position after their end belongs to nobody), the
+	// last one ends the FileSet; one file ends with a comment instead (the last node that gets a fix ends before it), one
+	// ends with a comment a rule reports, one is a single line.
+	"pf": {`package pf
+` + decls + `
+var _ = pd1(1)
+
+var first = "eof" == "eof"`, `package pf
+
+var second = 2 * 3 * 4`, `package pf
+
+var third = pb1(3)`, `package pf
+
+var fourth = legacy(4).then(44)`, `package pf
+
+var fifth = pb1(5 * 55) // trailing`, `package pf
+
+var sixth = "six" == "six" // TODO last`, `package pf; var seventh = pb1(7) == pb1(7)`, `package pf
+
+func eighth(a int) bool {
+	pdel(a)
+	return a == a
+}
+
+var ninth = [...]bool{8 == 8, (9 * 9) == (9 * 9)}[1 * 1]
+
+var last = [2]int{1 * 2, 3 * 4}[0] * 5 * (6 * 7)`},
 	// generated code: a //line directive before the package clause makes every position of the file name a non-Go file
 	"pd": {`//line gen.y:10
 package pd
@@ -478,6 +511,9 @@ func directRun(e *ruleguard.Engine, p *pkgT, goVersion string, state *ruleguard.
 				r.From = p.off(data.Suggestion.From)
 				r.To = p.off(data.Suggestion.To)
 				r.Text = string(data.Suggestion.Replacement)
+				if tf := p.fset.File(data.Suggestion.From); tf != nil && int(data.Suggestion.To) == tf.Base()+tf.Size() {
+					r.ToEOF = true
+				}
 				if keep != nil {
 					*keep = append(*keep, keptSlice{b: data.Suggestion.Replacement, text: r.Text, pkg: p.name, rep: r})
 				}
